@@ -165,8 +165,21 @@ def _attributed_extent(toks, k):
     return n - 1
 
 
+def strip_comments(text):
+    toks = R.lex(text, keep_comments=True)
+    out, last = [], 0
+    for t in toks:
+        if t.kind == 'comment':
+            out.append(text[last:t.start])
+            last = t.end
+    out.append(text[last:])
+    return ''.join(out)
+
+
 def rule_R0_attrs(text, features, log):
-    """Strip attributes; drop cfg-disabled nodes for the unit's feature set."""
+    """Strip comments (doc comments are attributes) and attributes; drop cfg-disabled nodes for
+    the unit's feature set."""
+    text = strip_comments(text)
     changed = True
     guard = 0
     while changed:
@@ -499,6 +512,17 @@ def weave_fn(w, item_id, text, spec, log):
             c = Clause(p.get('label', 'proof'), '', props, 'proof')
             text = text[:at] + ' ' + w.mark(item_id, c) + ' proof { ' + p['text'].strip() + ' } ' + text[at:]
             continue
+        if 'after_loop' in p:
+            toksl = R.lex(text)
+            lps = _find_loops(text, toksl)
+            k = p['after_loop']
+            if k < 1 or k > len(lps):
+                raise Undecided('%s: proof after_loop %d: function has %d loops' % (item_id, k, len(lps)))
+            close = R.match_close(toksl, lps[k - 1][1])
+            at = toksl[close].end
+            c = Clause(p.get('label', 'proof'), '', props, 'proof')
+            text = text[:at] + ' ' + w.mark(item_id, c) + ' proof { ' + p['text'].strip() + ' } ' + text[at:]
+            continue
         anchor = p.get('after') or p.get('before')
         nth = p.get('nth', 1)
         idxs = [m.start() for m in re.finditer(re.escape(anchor), text)]
@@ -576,6 +600,12 @@ def weave_fn(w, item_id, text, spec, log):
 # ----------------------------------------------------------------------------
 
 def load_unit(name):
+    import sys
+    if 'contracts_types' not in sys.modules:
+        sp = importlib.util.spec_from_file_location('contracts_types', os.path.join(CONTRACTS, '_types.py'))
+        md = importlib.util.module_from_spec(sp)
+        sp.loader.exec_module(md)
+        sys.modules['contracts_types'] = md
     path = os.path.join(CONTRACTS, name + '.py')
     spec = importlib.util.spec_from_file_location('contracts_' + name, path)
     mod = importlib.util.module_from_spec(spec)
@@ -592,8 +622,16 @@ def impl_header_for(src, toks, path):
             last_impl = i
     if last_impl is None or last_impl != len(segs) - 2:
         return None
-    it = R.locate(src, toks, '/'.join(segs[:last_impl + 1]))
-    return src[toks[it.kw].start:toks[it.body_open].start].strip()
+    inner = R.locate(src, toks, path)
+    # the enclosing impl is the impl item whose token range contains the located item
+    best = None
+    for it in R.items_in(src, toks, 0, len(toks), any_depth=True):
+        if it.kind == 'impl' and it.body_open is not None and it.body_open < inner.first and inner.last < it.last:
+            if best is None or it.body_open > best.body_open:
+                best = it
+    if best is None:
+        return None
+    return src[toks[best.kw].start:toks[best.body_open].start].strip()
 
 
 class Generated:
@@ -684,6 +722,11 @@ def build_unit(unit, repo, variant=None):
         else:
             if spec.get('derive'):
                 text = spec['derive'] + '\n' + text
+            hdr = impl_header_for(src, toks, path)
+            if hdr is not None:
+                hdr = rule_R17_visibility(hdr, [], item_id)
+                hdr = apply_regex_rewrites(hdr, getattr(unit, 'SUBST', []), [], item_id, 'R6')
+                text = '%s {\n%s\n}' % (hdr, text)
             parts.append('// ---- item %s  (%s:%d-%d) ----\n' % (item_id, spec['src'], a, b))
             parts.append(text + '\n')
         meta['rewrites'] = ['%s %s' % x for x in ilog]
@@ -736,7 +779,7 @@ def _canary_variants(w, item_id, text, spec, log):
        <fn>__can_<l>  : clause l negated (for clauses listed in spec['canaries'])"""
     out = []
     m = re.search(r'\bfn\s+([A-Za-z_0-9]+)', text)
-    fname = m.group(1)
+    fname = spec.get('rename') or m.group(1)
     if spec.get('vacuity', True):
         s2 = dict(spec)
         s2['ensures'] = [('__vacuity', 'false')]
